@@ -215,6 +215,8 @@ impl<F: RedisClientFactory, C: ConnFactory<Pkt = RespPacket>> MetaManager<F, C> 
         let cluster_name = cluster_meta.get_cluster_name();
 
         // validation
+        #[cfg(undermoon_verif)]
+        crate::common::verif_hook::point("setmeta.check_hosts");
         let local = NodeMap::new(cluster_meta.get_local().clone());
         if !local.check_hosts(self.config.announce_host.as_str(), cluster_name) {
             return Err(ClusterMetaError::NotMyMeta);
@@ -227,8 +229,12 @@ impl<F: RedisClientFactory, C: ConnFactory<Pkt = RespPacket>> MetaManager<F, C> 
         let migration_manager = &self.migration_manager;
 
         {
+            #[cfg(undermoon_verif)]
+            crate::common::verif_hook::point("setmeta.lock");
             let _guard = self.lock.lock();
 
+            #[cfg(undermoon_verif)]
+            crate::common::verif_hook::point("setmeta.epoch_test");
             if cluster_meta.get_epoch() <= self.epoch.load(Ordering::SeqCst)
                 && !cluster_meta.get_flags().force
             {
@@ -250,14 +256,20 @@ impl<F: RedisClientFactory, C: ConnFactory<Pkt = RespPacket>> MetaManager<F, C> 
                 self.blocking_map.clone(),
             );
 
+            #[cfg(undermoon_verif)]
+            crate::common::verif_hook::point("setmeta.map_store");
             self.meta_map.store(Arc::new(MetaMap {
                 cluster_map,
                 migration_map,
             }));
             // Should go after the meta_map.store above
+            #[cfg(undermoon_verif)]
+            crate::common::verif_hook::point("setmeta.epoch_store");
             self.epoch.store(cluster_meta.get_epoch(), Ordering::SeqCst);
 
             self.migration_manager.run_tasks(new_tasks);
+            #[cfg(undermoon_verif)]
+            crate::common::verif_hook::point("setmeta.unlock");
         };
 
         Ok(())
